@@ -57,6 +57,19 @@ def T(I, o):
     """Datatype term of an expression object."""
     if "T" in o.ghost:
         return o.ghost["T"]
+    if "indexed" in o.ghost and o.cls is None:
+        # child of a symbolic-arity node: its structural term is a function of the index
+        from . import gmode
+        fam, idx = o.ghost["indexed"]
+        TF = z3.Function(f"T[{fam.name}]", z3.IntSort(), ExprS)
+        t = TF(idx)
+        o.ghost["T"] = t
+        key = ("Tlink", fam.name)
+        if key not in I.ghost.setdefault("big_registered", set()):
+            I.ghost["big_registered"].add(key)
+            gmode.qm(I).foralls.append((fam.length, lambda u: z3.And(*[(fam.tagF(u) == sym.CLS[cn]) == recog(cn)(TF(u))
+                                                                      for cn in sym.CLASS_NAMES])))
+        return t
     if o.cls is None or o.kind == "child":
         t = z3.Const(f"T[{o.name}]", ExprS)
         o.ghost["T"] = t
